@@ -18,7 +18,8 @@ KEYS = [0, 1, 2, 3, 4, "a", "b", "c", "d", "e", 1.0, True,
   list(range(5, 25))            # the tail is used by "wide" runs only
 NKEYS_NORMAL = 17
 VALS = [0, 1, 2, 3, "x", "y", 1.0, True, (1, 2), (1, 2.0), None, "x"]
-NAMES = ["a", "b", "c", "d", "e", "f_g", "h", "pop", "copy", "_inc", "__x"]
+NAMES = ["a", "b", "c", "d", "e", "f_g", "h", "pop", "copy", "_inc", "__x",
+         ""]      # the empty string is a name like any other
 # "pop" / "copy" collide with dict methods: the instance attribute must still
 # be the strategy.  (Names the harness itself calls - keys, key2keys,
 # value2keys, strategy, default - are not used as strategy names.)
